@@ -20,9 +20,11 @@ def run(chk, tier):
         lib = lib_for(name, std)
         spec_group.check_groups(chk, lib)
         spec_group.check_iterators(chk, lib)
-        r = rint.RInt(chk, lib.facts, lib.label, ("S1", "S5"))
+        r = rint.RInt(chk, lib.facts, lib.label, ("S1", "S5", "S6"))
         r.run(lambda f: is_lib_or_gen(f, root) and ("group_base" in (f.get("cls_tpl") or "") or "iterator" in (f.get("cls_tpl") or "")
-                                                       or "cursor_range" in (f.get("cls_tpl") or "")))
+                                                       or "cursor_range" in (f.get("cls_tpl") or "")
+                                                       # friend operators of the iterators (not class members)
+                                                       or (f["name"].startswith("operator") and "iterator<" in ((f.get("params") or [{}])[0].get("t") or ""))))
         chk.extra.setdefault("rint_sinks", 0)
         chk.extra["rint_sinks"] += r.n_sinks
     chk.floor("GRP rows", chk.rule_counts.get("GRP", 0), 600)
